@@ -5,6 +5,7 @@ from core import Case, enc_b, enc_s, enc_header, psec
 from props.tr31util import VERS, rb, rs, rand_blocks, make_header, header_tuple, unwrap_case, wrap_case, UNWRAP_TOK, tr31, Session
 
 OBLIGATIONS = ["Psec.Props.C03.bMac_eq_tag", "Psec.Props.C03.dMac_eq_tag", "Psec.Props.C03.cMac_eq_tag", "Psec.Props.C03.deriveB_eq_kdf", "Psec.Props.C03.deriveD_eq_kdf", "Psec.Props.C03.deriveAC_eq_variant", "Psec.Props.C03.subkeys_eq", "Psec.Props.C03.encodeAscii_eq", "Psec.Props.C03.wrap_is_spec_valid", "Psec.Props.C03.wrap_opened_alike", "Psec.Tr31.specParse_all", "Psec.Tr31.specCbcDec_eq", "Psec.Props.C03.spec_valid_unwraps", "Psec.Tr31.unwrap_parts", "Psec.Tr31.blocksLoad_spec", "Psec.Tr31.disp_B", "Psec.Tr31.disp_D", "Psec.Tr31.disp_AC", "Psec.Props.C03.unwrap_eq_spec", "Psec.Props.C03.accepted_is_spec_valid", "Psec.Tr31.loadLoop_parseBlocks", "Psec.Tr31.dispatch_iff", "Psec.Tr31.specUnwrap_some_iff", "Psec.Tr31.psec_to_spec", "Psec.Tr31.spec_to_psec", "Psec.Props.C03.spec_roundtrip"]
+TABLE_OBLIGATIONS = ["Psec.Tables.wrapDispatch_by_table", "Psec.Tables.unwrapDispatch_by_table", "Psec.Tables.keyblock_mac_len_agree", "Psec.Tables.keyblock_block_size_agree"]   # model = tables regenerated from the source (harness/tables.py)
 THOROUGH_MODULES = ["PsecModel.Tests"]
 TRUSTED_BASE = ["Lean 4.33 kernel", "Spec/TR31.lean + Spec/CMAC.lean are my reading of TR-31:2018 and SP 800-38B (validated against the repository's vectors and OpenSSL's CMAC, not proved)",
                 "correspondence harness and compiled driver"]
